@@ -187,6 +187,21 @@ def run(chk):
     run_scenarios(chk, 'apply tasks that overrun their limit, then more tasks on the same workers: ids and state of the instances (DetSim)', at, {'C13'},
                   nontrivial=lambda sc, o: True, dist=lambda sc, o: {'n_jobs': sc['pool']['n_jobs'], 'start': sc['pool']['start_method']})
 
+    # kept-alive workers whose first call(s) bring no worker_init and a later one does: the state object the tasks have been using is the
+    # one the late worker_init and everything after it gets
+    li = []
+    for _ in range(40 if chk.tier == 'quick' else 600):
+        nj = rng.choice([1, 2, 3])
+        ops = [{'op': rng.choice(['map', 'map_unordered', 'imap']), 'n': rng.randint(nj, 3 * nj), 'chunk_size': 1, 'elem': 'scalar'} for _k in range(rng.randint(1, 2))]
+        ops.append({'op': rng.choice(['map', 'map_unordered', 'imap']), 'n': rng.randint(nj, 3 * nj), 'chunk_size': 1, 'elem': 'scalar', 'init': True, 'exit': rng.random() < .5})
+        if rng.random() < .5:
+            ops.append({'op': 'map', 'n': rng.randint(nj, 2 * nj), 'chunk_size': 1, 'elem': 'scalar', 'init': True})
+        ops.append({'op': 'stop_and_join'})
+        li.append({'seed': rng.randint(0, 10 ** 6), 'pool': {'n_jobs': nj, 'start_method': rng.choice(['fork', 'threading']), 'keep_alive': True, 'use_worker_state': True,
+                                                           'pass_worker_id': rng.random() < .5}, 'ops': ops, 'relax_shape': True, 'same_func': rng.random() < .3})
+    run_scenarios(chk, 'a worker_init that arrives after the kept-alive workers have already run tasks (DetSim)', li, {'C13'}, nontrivial=lambda sc, o: True,
+                  dist=lambda sc, o: {'n_jobs': sc['pool']['n_jobs'], 'start': sc['pool']['start_method']})
+
     def search():
         extra = id_scenarios(random.Random(chk.seed * 29 + 1), 800)
         for sc, o in zip(extra, run_scenarios(chk, 'search', extra, {'C13'})):
